@@ -568,7 +568,8 @@ def _resize_discr(discr, newshp, offset, discr_kwargs):
     discr_kwargs = dict(discr_kwargs)
 
     nodes_on_bdry = discr_kwargs.get('nodes_on_bdry', False)
-    if np.shape(nodes_on_bdry) == ():
+    if (np.isscalar(nodes_on_bdry) or
+            getattr(nodes_on_bdry, 'shape', None) == ()):
         nodes_on_bdry = ([(bool(nodes_on_bdry), bool(nodes_on_bdry))] *
                          discr.ndim)
     elif discr.ndim == 1 and len(nodes_on_bdry) == 2:
